@@ -181,8 +181,10 @@ theorem intSum_flag_nonneg (l : List Rec) : 0 ≤ intSum (l.map flag) := by
 
 theorem doseidAt_le_cumOf (cfg : Cfg) (pre : List Rec) (r : Rec) (post : List Rec) :
     doseidAt cfg pre r post ≤ cumOf pre r := by
-  unfold doseidAt
-  split <;> omega
+  unfold doseidAt decTo1
+  split
+  · split <;> omega
+  · omega
 
 theorem sameId_congr {x r : Rec} (h : x.id = r.id) : sameId x = sameId r := by
   funext y; simp [sameId, h]
